@@ -10,6 +10,7 @@
 -/
 import Wormhole.Inv.StepInv
 import Wormhole.Inv.WsLemmas
+import Wormhole.Reach
 
 set_option linter.unusedSimpArgs false
 
@@ -38,6 +39,21 @@ theorem intOnly_frame {A : Prop} (c f b) : IntOnly A (.frame c f b) := by
   intro cc cls h; cases h
 
 theorem intOnly_internal {A : Prop} (a : A) (c cls) : IntOnly A (.internal c cls) := fun _ _ _ => a
+
+/-- `e` is not an `Event.internal` -/
+def Event.notInternal : Event → Bool
+  | .internal _ _ => false
+  | _ => true
+
+theorem notInternal_of_intOnly_false {e : Event} (h : IntOnly False e) : e.notInternal = true := by
+  cases e with
+  | internal c cls => exact (h c cls rfl).elim
+  | _ => rfl
+
+theorem IntOnly.cause {A : Prop} {e : Event} (h : IntOnly A e) (he : e.notInternal = false) : A := by
+  cases e with
+  | internal c cls => exact h c cls rfl
+  | _ => cases he
 
 namespace Sys
 
@@ -189,6 +205,721 @@ theorem Full.foldl_send {α : Type} (g : α → Nat) (fr : α → Frame) (l : Li
   | cons a l ih => intro s h; exact ih (h.send _ _)
 
 end
+
+/-! ### `allocate` on a free name with a fresh mailbox id cannot be crowded, reclaimed or refused -/
+
+theorem mbSidesOf_openSide_le (d : Chan) (mb side : String) (t : Time) :
+    ((d.openSide mb side t).mbSidesOf mb).length ≤ (d.mbSidesOf mb).length + 1 := by
+  unfold Chan.openSide
+  split
+  · simp only [Chan.mbSidesOf, Chan.touch, Chan.insMbSide, List.filter_append, List.length_append]
+    have : ([({ mailbox := mb, opened := true, side := side, added := t, mood := none } : MbSide)].filter
+        (fun r => decide (r.mailbox = mb))).length ≤ 1 := List.length_filter_le _ _
+    omega
+  · simp only [Chan.mbSidesOf, Chan.touch]; omega
+
+theorem openMailbox_integrity {s s1 : Sys} {app mb side : String} {t : Time}
+    (e : s.openMailbox app mb side t = (s1, .integrity)) : ¬ s.db.HasMb app mb := by
+  unfold openMailbox at e
+  split at e
+  · rename_i e0; exact (addMailbox_none e0).1
+  · dsimp only at e
+    split at e <;> simp at e
+
+theorem openMailbox_crowded {s s1 : Sys} {app mb side : String} {t : Time}
+    (e : s.openMailbox app mb side t = (s1, .crowded)) : 2 ≤ (s.db.mbSidesOf mb).length := by
+  unfold openMailbox at e
+  split at e
+  · simp at e
+  · rename_i s0 e0
+    have hs0 : s0.db.mbSides = s.db.mbSides := by
+      rcases addMailbox_cases e0 with ⟨rfl, _⟩ | ⟨rfl, _⟩ <;> rfl
+    dsimp only at e
+    split at e
+    · rename_i hlen
+      have hdb : ((s0.mailboxOpen mb side t).commit).db = s0.db.openSide mb side t := by
+        rw [mailboxOpen_eq]; simp
+      rw [hdb] at hlen
+      have := mbSidesOf_openSide_le s0.db mb side t
+      have e2 : (s0.db.mbSidesOf mb) = (s.db.mbSidesOf mb) := by simp [Chan.mbSidesOf, hs0]
+      rw [e2] at this
+      omega
+    · simp at e
+
+theorem claimCont_isOk {s s1 : Sys} {app mb side : String} {npid : Nat} {t : Time} {r : ClaimRes}
+    (hmb : s.db.HasMb app mb) (h1 : (s.db.mbSidesOf mb).length < 2) (h2 : (s.db.npSidesOf npid).length ≤ 2)
+    (e : claimCont s app npid mb side t = (s1, r)) : r = .ok mb := by
+  unfold claimCont at e
+  dsimp only at e
+  split at e
+  · rename_i s3 e3
+    exact absurd (by simpa using hmb) (openMailbox_integrity e3)
+  · rename_i s3 e3
+    have := openMailbox_crowded e3
+    simp only [commit_db] at this
+    omega
+  · rename_i s3 e3
+    obtain ⟨d, _, _⟩ := openMailbox_spec e3
+    have hnp := d.np
+    simp only [Chan.npPart, commit_db, Prod.mk.injEq] at hnp
+    have e2 : s3.db.npSidesOf npid = s.db.npSidesOf npid := by simp [Chan.npSidesOf, hnp.2.1]
+    rw [e2] at e
+    split at e
+    · omega
+    · simp only [Prod.mk.injEq] at e
+      exact e.2.symm
+
+theorem npSidesOf_insNew_length (d : Chan) (hb : d.IdsBounded) (app name mb side : String) (t : Time) :
+    (((d.insNameplate app name mb).insNpSide ⟨d.nextNp, true, side, t⟩).npSidesOf d.nextNp).length ≤ 1 := by
+  have h0 : (d.npSides.filter (fun r => decide (r.npid = d.nextNp))) = [] := by
+    simp only [List.filter_eq_nil_iff, decide_eq_true_eq]
+    intro r' hr' e'
+    have := hb.2 r' hr'
+    omega
+  simp only [Chan.npSidesOf, Chan.insNpSide, Chan.insNameplate, List.filter_append, List.length_append, h0,
+    List.length_nil, Nat.zero_add]
+  exact List.length_filter_le _ _
+
+theorem claimNameplate_new_isOk {s s1 : Sys} {app name side fresh : String} {t : Time} {r : ClaimRes}
+    (hc : s.db.CInv) (hnp : s.db.findNameplate app name = none) (hfresh : ∀ m ∈ s.db.mailboxes, ¬ m.id = fresh)
+    (e : s.claimNameplate app name side t fresh = (s1, r)) : r = .ok fresh := by
+  unfold claimNameplate at e
+  simp only [hnp] at e
+  split at e
+  · rename_i e0
+    obtain ⟨_, m, hm, em⟩ := addMailbox_none e0
+    exact absurd em (hfresh m hm)
+  · rename_i s0 e0
+    rcases addMailbox_cases e0 with ⟨_, ⟨m, hm, em, _⟩⟩ | ⟨rfl, _⟩
+    · exact absurd em (hfresh m hm)
+    · have hside : ((s.modDb (·.insMailbox ⟨app, fresh, t, true⟩)).modDb (·.insNameplate app name fresh)).db.findNpSide
+          (s.modDb (·.insMailbox ⟨app, fresh, t, true⟩)).db.nextNp side = none := by
+        exact hc.bounded.findNpSide_fresh side
+      rw [claimTail_eq, hside] at e
+      dsimp only at e
+      refine claimCont_isOk ?_ ?_ ?_ e
+      · simp only [modDb_db, Chan.hasMb_insNpSide, Chan.hasMb_insNameplate]
+        exact (Chan.hasMb_insMailbox _ _ _ _).2 (Or.inr ⟨rfl, rfl⟩)
+      · have : ∀ r' ∈ s.db.mbSides, ¬ r'.mailbox = fresh := by
+          intro r' hr' e'
+          obtain ⟨m, hm, em⟩ := hc.msFk r' hr'
+          exact hfresh m hm (em.trans e')
+        have h0 : (s.db.mbSides.filter (fun r => decide (r.mailbox = fresh))) = [] := by
+          simp only [List.filter_eq_nil_iff, decide_eq_true_eq]
+          exact this
+        simp [Chan.mbSidesOf, Chan.insNpSide, Chan.insNameplate, Chan.insMailbox, h0]
+      · exact Nat.le_trans (npSidesOf_insNew_length (s.db.insMailbox ⟨app, fresh, t, true⟩) hc.bounded app name
+          fresh side t) (by omega)
+
+theorem findShort_not_mem {claimed : List String} {pick : Nat} :
+    ∀ {sizes : List Nat} {k : Nat}, findShort claimed pick sizes = some k → ¬ toString k ∈ claimed := by
+  intro sizes
+  induction sizes with
+  | nil => intro k h; simp [findShort] at h
+  | cons size rest ih =>
+    intro k h
+    unfold findShort at h
+    dsimp only at h
+    split at h
+    · rename_i k' hk'
+      cases h
+      have := List.mem_of_getElem? hk'
+      simp only [availableOfSize, List.mem_filter, decide_not, Bool.not_eq_eq_eq_not, Bool.not_true,
+        decide_eq_false_iff_not] at this
+      exact this.2
+    · exact ih h
+
+/-- the name `_find_available_nameplate_id` returns is not among the claimed ones -/
+theorem findAvailable_not_mem {claimed : List String} {pick : Nat} {draws : List Nat} {n : String}
+    (h : findAvailable claimed pick draws = some n) : ¬ n ∈ claimed := by
+  unfold findAvailable at h
+  split at h
+  · rename_i k hk
+    cases h
+    exact findShort_not_mem hk
+  · split at h
+    · rename_i k hk
+      cases h
+      have := List.find?_some hk
+      simpa using this
+    · cases h
+
+theorem mem_namesOfApp' {d : Chan} {app n : String} :
+    n ∈ d.namesOfApp app ↔ ∃ r ∈ d.nameplates, r.app = app ∧ r.name = n := by
+  unfold Chan.namesOfApp
+  rw [List.mem_eraseDups, List.mem_map]
+  constructor
+  · rintro ⟨r, hr, rfl⟩
+    rw [List.mem_filter] at hr
+    exact ⟨r, hr.1, by simpa using hr.2, rfl⟩
+  · rintro ⟨r, hr, ha, rfl⟩
+    exact ⟨r, List.mem_filter.2 ⟨hr, by simpa using ha⟩, rfl⟩
+
+theorem findNameplate_none_of_findAvailable {d : Chan} {app : String} {pick : Nat} {draws : List Nat} {n : String}
+    (h : findAvailable (d.namesOfApp app) pick draws = some n) : d.findNameplate app n = none := by
+  have := findAvailable_not_mem h
+  rw [mem_namesOfApp'] at this
+  simp only [Chan.findNameplate, List.find?_eq_none, decide_eq_true_eq]
+  intro r hr hk
+  exact this ⟨r, hr, hk⟩
+
+/-! ### the handlers -/
+
+section handlers
+variable {U : String → Prop} {t : Time} {S : Prop} {s : Sys} {x : Conn} {A : Prop}
+
+theorem ox_send {s1 : Sys} (h : OutExt (IntOnly A) s s1) (c f) : OutExt (IntOnly A) s (s1.send c f) :=
+  h.send (fun b => intOnly_frame c f b)
+theorem ox_sendError {s1 : Sys} (h : OutExt (IntOnly A) s s1) (c txt) : OutExt (IntOnly A) s (s1.sendError c txt) :=
+  ox_send h c _
+theorem ox_internalErr {s1 : Sys} (h : OutExt (IntOnly A) s s1) (a : A) (c cls) :
+    OutExt (IntOnly A) s (s1.internalErr c cls) :=
+  h.emit (intOnly_internal a _ _)
+
+/-- an update of flags that the invariant does not look at -/
+theorem Full.updConn_flags (h : s.Full U t S) (hx : x ∈ s.conns) (f : Conn → Conn)
+    (hf : (f x).id = x.id ∧ (f x).mailbox = x.mailbox ∧ (f x).listening = x.listening ∧ (f x).app = x.app ∧
+      (f x).side = x.side ∧ (f x).mailboxId = x.mailboxId) : (s.updConn x.id f).Full U t S := by
+  obtain ⟨f1, f2, f3, f4, f5, f6⟩ := hf
+  obtain ⟨ok, uc⟩ := h.conn x hx
+  refine ((h.winv hx).updConn f f1 ?_).full ⟨?_, ?_, ?_⟩ ?_
+  · rw [f2, f3, f4]; exact h.good.lh x hx
+  · rw [f2, f3]; exact ok.hl
+  · rw [f2, f3]; exact ok.lm
+  · rw [f4, f5]; exact ok.bound
+  · intro m; rw [f6]; exact uc m
+
+theorem handlePing_full (h : s.Full U t S) (c v) :
+    (s.handlePing c v).Full U t S ∧ OutExt (IntOnly False) s (s.handlePing c v) := by
+  unfold Sys.handlePing
+  split
+  · exact ⟨h.sendError _ _, ox_sendError OutExt.refl _ _⟩
+  · exact ⟨h.send _ _, ox_send OutExt.refl _ _⟩
+
+theorem handleBind_full (h : s.Full U t S) (hx : x ∈ s.conns) (t' a sd i v) :
+    (s.handleBind x t' a sd i v).Full U t S ∧ OutExt (IntOnly False) s (s.handleBind x t' a sd i v) := by
+  unfold Sys.handleBind
+  split
+  · exact ⟨h.sendError _ _, ox_sendError OutExt.refl _ _⟩
+  · rename_i hg
+    split
+    · exact ⟨h.sendError _ _, ox_sendError OutExt.refl _ _⟩
+    · split
+      · exact ⟨h.sendError _ _, ox_sendError OutExt.refl _ _⟩
+      · rename_i a' _ sd'
+        obtain ⟨ok, uc⟩ := h.conn x hx
+        have hnone : x.app = none := by
+          cases hxa : x.app with
+          | none => rfl
+          | some _ => exact absurd (Or.inl (by simp [hxa])) hg
+        have F1 : (s.updConn x.id (fun y => { y with app := some a', side := some sd' })).Full U t S := by
+          refine ((h.winv hx).updConn _ rfl ?_).full ⟨ok.hl, ok.lm, by simp⟩ uc
+          intro hl m hm
+          obtain ⟨a0, ha0, _⟩ := h.good.lh x hx hl m hm
+          rw [hnone] at ha0; cases ha0
+        refine ⟨F1.of_core (F1.good.logClientVersion _ _ _ _ _) (by simp), ?_⟩
+        exact (CExt.logClientVersion (OutExt.updConn OutExt.refl)).intOnly
+
+theorem handleList_full (h : s.Full U t S) (app) :
+    (s.handleList x app).Full U t S ∧ OutExt (IntOnly False) s (s.handleList x app) :=
+  ⟨h.send _ _, ox_send OutExt.refl _ _⟩
+
+theorem handleAllocate_full (h : s.Full U t S) (hx : x ∈ s.conns) (app side pick draws) {fresh : String}
+    (hu : U fresh) :
+    (s.handleAllocate x app side t pick draws fresh).Full U t S ∧
+    OutExt (IntOnly (findAvailable (s.db.namesOfApp app) pick draws = none ∨ ∃ m ∈ s.db.mailboxes, m.id = fresh))
+      s (s.handleAllocate x app side t pick draws fresh) := by
+  unfold Sys.handleAllocate
+  split
+  · exact ⟨h.sendError _ _, ox_sendError OutExt.refl _ _⟩
+  · split
+    · rename_i efa
+      exact ⟨h.internalErr _ _, ox_internalErr OutExt.refl (Or.inl efa) _ _⟩
+    · rename_i name efa
+      have hcause : ∀ {s1 : Sys} {r : ClaimRes}, s.claimNameplate app name side t fresh = (s1, r) →
+          (∀ m, r ≠ .ok m) →
+          (findAvailable (s.db.namesOfApp app) pick draws = none ∨ ∃ m ∈ s.db.mailboxes, m.id = fresh) := by
+        intro s1 r e hr
+        by_cases hf : ∃ m ∈ s.db.mailboxes, m.id = fresh
+        · exact Or.inr hf
+        · have := claimNameplate_new_isOk h.good.db.cinv (findNameplate_none_of_findAvailable efa)
+            (fun m hm em => hf ⟨m, hm, em⟩) e
+          exact absurd this (hr fresh)
+      have key : ∀ {s1 : Sys} {r : ClaimRes}, s.claimNameplate app name side t fresh = (s1, r) →
+          s1.Full U t S ∧ x ∈ s1.conns ∧
+          OutExt (IntOnly (findAvailable (s.db.namesOfApp app) pick draws = none ∨
+            ∃ m ∈ s.db.mailboxes, m.id = fresh)) s s1 := by
+        intro s1 r e
+        obtain ⟨k1, k2, _, _, _⟩ := claimNameplate_good h.good hu e
+        refine ⟨h.of_core k1 k2, by rw [k2]; exact hx, ?_⟩
+        have := (CExt.claimNameplate (OutExt.refl (s := s)) (app := app) (name := name) (side := side) (t := t)
+          (fresh := fresh)).intOnly (A := (findAvailable (s.db.namesOfApp app) pick draws = none ∨
+            ∃ m ∈ s.db.mailboxes, m.id = fresh))
+        rw [e] at this; exact this
+      split
+      · rename_i s1 _ e
+        obtain ⟨F1, hx1, ox⟩ := key e
+        refine ⟨(F1.updConn_flags hx1 _ ⟨rfl, rfl, rfl, rfl, rfl, rfl⟩).send _ _, ?_⟩
+        exact ox_send (OutExt.updConn ox) _ _
+      · rename_i s1 e
+        obtain ⟨F1, _, ox⟩ := key e
+        exact ⟨F1.internalErr _ _, ox_internalErr ox (hcause e (by simp)) _ _⟩
+      · rename_i s1 e
+        obtain ⟨F1, _, ox⟩ := key e
+        exact ⟨F1.internalErr _ _, ox_internalErr ox (hcause e (by simp)) _ _⟩
+      · rename_i s1 e
+        obtain ⟨F1, _, ox⟩ := key e
+        exact ⟨F1.internalErr _ _, ox_internalErr ox (hcause e (by simp)) _ _⟩
+
+theorem handleClaim_full (h : s.Full U t S) (hx : x ∈ s.conns) (app side n) {fresh : String} (hu : U fresh) :
+    (s.handleClaim x app side t n fresh).Full U t S ∧
+    OutExt (IntOnly (s.db.ForeignMb app fresh)) s (s.handleClaim x app side t n fresh) := by
+  unfold Sys.handleClaim
+  split
+  · exact ⟨h.sendError _ _, ox_sendError OutExt.refl _ _⟩
+  · rename_i name
+    split
+    · exact ⟨h.sendError _ _, ox_sendError OutExt.refl _ _⟩
+    · dsimp only
+      have F0 : (s.updConn x.id (fun y => { y with didClaim := true, nameplateId := some name })).Full U t S :=
+        h.updConn_flags hx _ ⟨rfl, rfl, rfl, rfl, rfl, rfl⟩
+      have key : ∀ {s1 : Sys} {r : ClaimRes},
+          (s.updConn x.id (fun y => { y with didClaim := true, nameplateId := some name })).claimNameplate app name
+            side t fresh = (s1, r) →
+          s1.Full U t S ∧ OutExt (IntOnly (s.db.ForeignMb app fresh)) s s1 ∧
+            (r = .integrity → s.db.ForeignMb app fresh) := by
+        intro s1 r e
+        obtain ⟨k1, k2, _, _, k5⟩ := claimNameplate_good F0.good hu e
+        refine ⟨F0.of_core k1 k2, ?_, k5⟩
+        have := (CExt.claimNameplate (OutExt.updConn (OutExt.refl (s := s)) (c := x.id)
+          (f := fun y => { y with didClaim := true, nameplateId := some name })) (app := app) (name := name)
+          (side := side) (t := t) (fresh := fresh)).intOnly (A := s.db.ForeignMb app fresh)
+        rw [e] at this; exact this
+      split
+      · rename_i s1 _ e
+        obtain ⟨F1, ox, _⟩ := key e
+        exact ⟨F1.send _ _, ox_send ox _ _⟩
+      · rename_i s1 e
+        obtain ⟨F1, ox, _⟩ := key e
+        exact ⟨F1.sendError _ _, ox_sendError ox _ _⟩
+      · rename_i s1 e
+        obtain ⟨F1, ox, _⟩ := key e
+        exact ⟨F1.sendError _ _, ox_sendError ox _ _⟩
+      · rename_i s1 e
+        obtain ⟨F1, ox, k5⟩ := key e
+        exact ⟨F1.internalErr _ _, ox_internalErr ox (k5 rfl) _ _⟩
+
+theorem handleRelease_full (h : s.Full U t S) (hx : x ∈ s.conns) (app side t' n) :
+    (s.handleRelease x app side t' n).Full U t S ∧ OutExt (IntOnly False) s (s.handleRelease x app side t' n) := by
+  unfold Sys.handleRelease
+  have go : ∀ name : String,
+      (match (s.updConn x.id (fun y => { y with didRelease := true })).releaseNameplate app name side t' with
+       | (s1, true) => s1.send x.id .released
+       | (s1, false) => s1.internalErr x.id "IndexError").Full U t S ∧
+      OutExt (IntOnly False) s
+      (match (s.updConn x.id (fun y => { y with didRelease := true })).releaseNameplate app name side t' with
+       | (s1, true) => s1.send x.id .released
+       | (s1, false) => s1.internalErr x.id "IndexError") := by
+    intro name
+    have F0 : (s.updConn x.id (fun y => { y with didRelease := true })).Full U t S :=
+      h.updConn_flags hx _ ⟨rfl, rfl, rfl, rfl, rfl, rfl⟩
+    split
+    all_goals
+      rename_i s1 e
+      obtain ⟨k1, k2, k3, _⟩ := releaseNameplate_good F0.good e
+    · have ox : OutExt (IntOnly False) s s1 := by
+        have := (CExt.releaseNameplate (OutExt.updConn (OutExt.refl (s := s)) (c := x.id)
+          (f := fun y => { y with didRelease := true })) (app := app) (name := name) (side := side)
+          (t := t')).intOnly (A := False)
+        rw [e] at this; exact this
+      exact ⟨(F0.of_core k1 k3).send _ _, ox_send ox _ _⟩
+    · cases k2
+  split
+  · exact ⟨h.sendError _ _, ox_sendError OutExt.refl _ _⟩
+  · dsimp only
+    split
+    · split
+      · exact ⟨h.sendError _ _, ox_sendError OutExt.refl _ _⟩
+      · exact go _
+    · exact go _
+    · exact go _
+    · exact ⟨h.sendError _ _, ox_sendError OutExt.refl _ _⟩
+
+theorem replay_full {s1 : Sys} (h : s1.Full U t S) (c app mb) : (s1.replay c app mb).Full U t S := by
+  unfold Sys.replay
+  exact Full.foldl_send (fun _ => c) (fun (m : Message) => .message m.side m.phase m.body m.rx m.msgId) _ h
+
+theorem ox_replay {s1 : Sys} (h : OutExt (IntOnly A) s s1) (c app mb) : OutExt (IntOnly A) s (s1.replay c app mb) := by
+  unfold Sys.replay
+  exact OutExt.foldl_send (fun _ => c) (fun (m : Message) => .message m.side m.phase m.body m.rx m.msgId) _ h
+    (fun _ _ b => intOnly_frame _ _ b)
+
+theorem broadcast_full {s1 : Sys} (h : s1.Full U t S) (app mb f) : (s1.broadcast app mb f).Full U t S := by
+  unfold Sys.broadcast
+  exact Full.foldl_send (fun c => c) (fun _ => f) _ h
+
+theorem ox_broadcast {s1 : Sys} (h : OutExt (IntOnly A) s s1) (app mb f) :
+    OutExt (IntOnly A) s (s1.broadcast app mb f) := by
+  unfold Sys.broadcast
+  exact OutExt.foldl_send (fun c => c) (fun _ => f) _ h (fun _ _ b => intOnly_frame _ _ b)
+
+theorem handleOpen_full (h : s.Full U t S) (hx : x ∈ s.conns) {app : String} (happ : x.app = some app)
+    (side : String) (mailbox : Option String) (hu : ∀ mb, mailbox = some mb → U mb) :
+    (s.handleOpen x app side t mailbox).Full U t S ∧
+    OutExt (IntOnly (∃ mb, mailbox = some mb ∧ s.db.ForeignMb app mb)) s (s.handleOpen x app side t mailbox) := by
+  unfold Sys.handleOpen
+  split
+  · exact ⟨h.sendError _ _, ox_sendError OutExt.refl _ _⟩
+  · rename_i hnone
+    split
+    · exact ⟨h.sendError _ _, ox_sendError OutExt.refl _ _⟩
+    · rename_i mb
+      dsimp only
+      obtain ⟨ok, uc⟩ := h.conn x hx
+      have w0 : (s.updConn x.id (fun y => { y with mailboxId := some mb })).WInv U t S x.id
+          { x with mailboxId := some mb } :=
+        (h.winv hx).updConn (fun y => { y with mailboxId := some mb }) rfl (h.good.lh x hx)
+      have ok0 : ({ x with mailboxId := some mb } : Conn).Ok := ⟨ok.hl, ok.lm, ok.bound⟩
+      have uc0 : ({ x with mailboxId := some mb } : Conn).UC U := by
+        intro m hm
+        simp only [Option.some.injEq] at hm
+        subst hm
+        exact hu _ rfl
+      split
+      all_goals
+        rename_i s1 e
+        obtain ⟨k1, k2, _, _, k5, k6⟩ := openMailbox_good w0.good (hu mb rfl) e
+        have w1 := w0.of_core k1 k2
+        have ox : OutExt (IntOnly (∃ mb', some mb = some mb' ∧ s.db.ForeignMb app mb')) s s1 := by
+          have := (CExt.openMailbox (OutExt.updConn (OutExt.refl (s := s)) (c := x.id)
+            (f := fun y => { y with mailboxId := some mb })) (app := app) (mb := mb) (side := side)
+            (t := t)).intOnly (A := (∃ mb', some mb = some mb' ∧ s.db.ForeignMb app mb'))
+          rw [e] at this; exact this
+      · exact ⟨(w1.full ok0 uc0).sendError _ _, ox_sendError ox _ _⟩
+      · exact ⟨(w1.full ok0 uc0).internalErr _ _, ox_internalErr ox ⟨mb, rfl, k6 rfl⟩ _ _⟩
+      · have w2 := w1.updConn (fun y => { y with mailbox := some mb, listening := true }) rfl (by
+          intro _ m hm
+          simp only [Option.some.injEq] at hm
+          subst hm
+          exact ⟨app, happ, k5 (by simp)⟩)
+        have F2 := w2.full ⟨by simp, by simp, ok.bound⟩ uc0
+        exact ⟨replay_full F2 _ _ _, ox_replay (OutExt.updConn ox) _ _ _⟩
+
+theorem handleAdd_full (h : s.Full U t S) (hx : x ∈ s.conns) {app : String} (happ : x.app = some app)
+    (side : String) (id : Val) (ph bd : Option Val) :
+    (s.handleAdd x app side t id ph bd).Full U t S ∧ OutExt (IntOnly False) s (s.handleAdd x app side t id ph bd) := by
+  unfold Sys.handleAdd
+  split
+  · exact ⟨h.sendError _ _, ox_sendError OutExt.refl _ _⟩
+  · rename_i mb hmb
+    split
+    · exact ⟨h.sendError _ _, ox_sendError OutExt.refl _ _⟩
+    · split
+      · exact ⟨h.sendError _ _, ox_sendError OutExt.refl _ _⟩
+      · rename_i ph' _ bd'
+        obtain ⟨ok, _⟩ := h.conn x hx
+        have hl := ok.hl (by simp [hmb])
+        obtain ⟨a, ha, hb⟩ := h.good.lh x hx hl mb hmb
+        rw [happ] at ha
+        cases ha
+        have F1 := h.of_core (addMessage_good h.good side ph' bd' id hb) (by simp)
+        exact ⟨broadcast_full F1 _ _ _, ox_broadcast (CExt.addMessage OutExt.refl).intOnly _ _ _⟩
+
+theorem handleClose_full (h : s.Full U t S) (hx : x ∈ s.conns) (app : String)
+    (side : String) (mailbox : Option String) (mood : Option String) (hu : ∀ mb, mailbox = some mb → U mb) :
+    (s.handleClose x app side t mailbox mood).Full U t S ∧
+    OutExt (IntOnly (∃ mb, (mailbox = some mb ∨ (mailbox = none ∧ x.mailboxId = some mb)) ∧ s.db.ForeignMb app mb)) s
+      (s.handleClose x app side t mailbox mood) := by
+  unfold Sys.handleClose
+  obtain ⟨ok, uc⟩ := h.conn x hx
+  have tail : ∀ (A : Prop) (s1 : Sys) (r : OpenRes) (hd : String) (z : Conn), s1.WInv U t S x.id z →
+      (r ≠ .ok → z.Ok) → (z.app.isSome ↔ z.side.isSome) → z.UC U → OutExt (IntOnly A) s s1 → (r = .integrity → A) →
+      (match ((s1, r, hd) : Sys × OpenRes × String) with
+       | (s1, .crowded, _) => s1.sendError x.id "crowded"
+       | (s1, .integrity, _) => s1.internalErr x.id "IntegrityError"
+       | (s1, .ok, h) =>
+         let s2 := s1.updConn x.id (fun y => { y with listening := false, didClose := true })
+         match s2.mailboxClose app h side mood t with
+         | (s3, false) => s3.internalErr x.id "IndexError"
+         | (s3, true) => (s3.updConn x.id (fun y => { y with mailbox := none })).send x.id .closed).Full U t S ∧
+      OutExt (IntOnly A) s
+      (match ((s1, r, hd) : Sys × OpenRes × String) with
+       | (s1, .crowded, _) => s1.sendError x.id "crowded"
+       | (s1, .integrity, _) => s1.internalErr x.id "IntegrityError"
+       | (s1, .ok, h) =>
+         let s2 := s1.updConn x.id (fun y => { y with listening := false, didClose := true })
+         match s2.mailboxClose app h side mood t with
+         | (s3, false) => s3.internalErr x.id "IndexError"
+         | (s3, true) => (s3.updConn x.id (fun y => { y with mailbox := none })).send x.id .closed) := by
+    intro A s1 r hd z w1 hzok hzb hzu ox hint
+    cases r
+    · dsimp only
+      have w2 := w1.updConn (fun y => { y with listening := false, didClose := true }) rfl
+        (by intro hl; simp at hl)
+      split
+      all_goals
+        rename_i s3 e
+        obtain ⟨k1, k2, _, k4⟩ := mailboxClose_good w2.good e
+      · cases k2
+      · have w3 := w2.of_close rfl k1 k4
+        have w4 := w3.updConn (fun y => { y with mailbox := none }) rfl (by intro hl; simp at hl)
+        have ox3 : OutExt (IntOnly A) s s3 := by
+          have := (CExt.mailboxClose (OutExt.updConn (OutExt.refl (s := s1)) (c := x.id)
+            (f := fun y => { y with listening := false, didClose := true })) (app := app) (mb := hd) (side := side)
+            (mood := mood) (t := t)).intOnly (A := A)
+          rw [e] at this; exact ox.trans this
+        exact ⟨(w4.full ⟨by simp, by simp, hzb⟩ hzu).send _ _, ox_send (OutExt.updConn ox3) _ _⟩
+    · exact ⟨(w1.full (hzok (by simp)) hzu).sendError _ _, ox_sendError ox _ _⟩
+    · exact ⟨(w1.full (hzok (by simp)) hzu).internalErr _ _, ox_internalErr ox (hint rfl) _ _⟩
+  have go : ∀ (A : Prop) (mb : String), U mb → (s.db.ForeignMb app mb → A) →
+      (match (match x.mailbox with
+          | some h => (s, OpenRes.ok, h)
+          | none =>
+            match s.openMailbox app mb side t with
+            | (s1, r) => (s1.updConn x.id (fun y => if r = OpenRes.ok then { y with mailbox := some mb } else y), r, mb)
+          : Sys × OpenRes × String) with
+       | (s1, .crowded, _) => s1.sendError x.id "crowded"
+       | (s1, .integrity, _) => s1.internalErr x.id "IntegrityError"
+       | (s1, .ok, h) =>
+         let s2 := s1.updConn x.id (fun y => { y with listening := false, didClose := true })
+         match s2.mailboxClose app h side mood t with
+         | (s3, false) => s3.internalErr x.id "IndexError"
+         | (s3, true) => (s3.updConn x.id (fun y => { y with mailbox := none })).send x.id .closed).Full U t S ∧
+      OutExt (IntOnly A) s
+      (match (match x.mailbox with
+          | some h => (s, OpenRes.ok, h)
+          | none =>
+            match s.openMailbox app mb side t with
+            | (s1, r) => (s1.updConn x.id (fun y => if r = OpenRes.ok then { y with mailbox := some mb } else y), r, mb)
+          : Sys × OpenRes × String) with
+       | (s1, .crowded, _) => s1.sendError x.id "crowded"
+       | (s1, .integrity, _) => s1.internalErr x.id "IntegrityError"
+       | (s1, .ok, h) =>
+         let s2 := s1.updConn x.id (fun y => { y with listening := false, didClose := true })
+         match s2.mailboxClose app h side mood t with
+         | (s3, false) => s3.internalErr x.id "IndexError"
+         | (s3, true) => (s3.updConn x.id (fun y => { y with mailbox := none })).send x.id .closed) := by
+    intro A mb humb hA
+    cases hxm : x.mailbox with
+    | some hd =>
+      exact tail A s .ok hd x (h.winv hx) (fun _ => ok) ok.bound uc OutExt.refl (fun e => nomatch e)
+    | none =>
+      dsimp only
+      cases e : s.openMailbox app mb side t with
+      | mk s1 r =>
+        obtain ⟨k1, k2, _, _, _, k6⟩ := openMailbox_good h.good humb e
+        have w1 := (h.winv hx).of_core k1 k2
+        have ox : OutExt (IntOnly A) s s1 := by
+          have := (CExt.openMailbox (OutExt.refl (s := s)) (app := app) (mb := mb) (side := side) (t := t)).intOnly
+            (A := A)
+          rw [e] at this; exact this
+        have w2 := w1.updConn (fun y => if r = OpenRes.ok then { y with mailbox := some mb } else y)
+          (by split <;> rfl)
+          (by
+            intro hl m _
+            have hl' : x.listening = true := by
+              split at hl <;> exact hl
+            have := ok.lm hl'
+            rw [hxm] at this; cases this)
+        refine tail A _ r mb _ w2 ?_ ?_ ?_ (OutExt.updConn ox) (fun er => hA (k6 er))
+        · intro hr; rw [if_neg hr]; exact ok
+        · split <;> exact ok.bound
+        · intro m hm
+          apply uc m
+          split at hm <;> exact hm
+  split
+  · exact ⟨h.sendError _ _, ox_sendError OutExt.refl _ _⟩
+  · dsimp only
+    split
+    · rename_i m held hheld
+      split
+      · exact ⟨h.sendError _ _, ox_sendError OutExt.refl _ _⟩
+      · exact go _ m (hu m rfl) (fun hf => ⟨m, Or.inl rfl, hf⟩)
+    · rename_i m _
+      exact go _ m (hu m rfl) (fun hf => ⟨m, Or.inl rfl, hf⟩)
+    · rename_i held hheld
+      exact go _ held (uc held hheld) (fun hf => ⟨held, Or.inr ⟨rfl, hheld⟩, hf⟩)
+    · exact ⟨h.sendError _ _, ox_sendError OutExt.refl _ _⟩
+
+theorem IntOnly.imp {A B : Prop} (f : A → B) (e : Event) (h : IntOnly A e) : IntOnly B e :=
+  fun cc cls he => f (h cc cls he)
+
+end handlers
+
+/-! ### onMessage and the other operations -/
+
+/-- the only causes of an `internal` event while a message is processed:
+    `ValueError` of an exhausted allocation (K-alloc-exhaust), a "fresh" mailbox id that already
+    exists (excluded by well-formedness), a mailbox id that exists under another app
+    (K-global-mailbox-id) -/
+def IntCause (s : Sys) (c : Nat) : Cmd → Prop
+  | .allocate pick draws fresh => ∃ x app, s.findConn c = some x ∧ x.app = some app ∧
+      (findAvailable (s.db.namesOfApp app) pick draws = none ∨ ∃ m ∈ s.db.mailboxes, m.id = fresh)
+  | .claim _ fresh => ∃ x app, s.findConn c = some x ∧ x.app = some app ∧ s.db.ForeignMb app fresh
+  | .open_ m => ∃ x app mb, s.findConn c = some x ∧ x.app = some app ∧ m = some mb ∧ s.db.ForeignMb app mb
+  | .close m _ => ∃ x app mb, s.findConn c = some x ∧ x.app = some app ∧
+      (m = some mb ∨ (m = none ∧ x.mailboxId = some mb)) ∧ s.db.ForeignMb app mb
+  | _ => False
+
+section ops
+variable {U : String → Prop} {t : Time} {S : Prop} {s : Sys}
+
+theorem onMessage_full (h : s.Full U t S) (c : Nat) (id : Val) (cmd : Cmd) (hu : ∀ m ∈ cmd.mailboxIds, U m) :
+    (s.onMessage c t id cmd).Full U t S ∧ OutExt (IntOnly (s.IntCause c cmd)) s (s.onMessage c t id cmd) := by
+  unfold Sys.onMessage
+  split
+  · exact ⟨h, OutExt.refl⟩
+  · rename_i x hfx
+    have hx : x ∈ s.conns := findConn_mem' hfx
+    have ha := h.send c (.ack id)
+    have hxa : x ∈ (s.send c (.ack id)).conns := hx
+    have oxa : ∀ {A : Prop}, OutExt (IntOnly A) s (s.send c (.ack id)) := ox_send OutExt.refl _ _
+    have fin : ∀ {A : Prop} {s' : Sys}, (A → s.IntCause c cmd) →
+        s'.Full U t S ∧ OutExt (IntOnly A) (s.send c (.ack id)) s' →
+        s'.Full U t S ∧ OutExt (IntOnly (s.IntCause c cmd)) s s' :=
+      fun f hh => ⟨hh.1, oxa.trans (hh.2.mono (IntOnly.imp f))⟩
+    cases cmd with
+    | noType => exact ⟨h.sendError _ _, ox_sendError OutExt.refl _ _⟩
+    | ping v => exact fin False.elim (handlePing_full ha _ _)
+    | bind a sd i v => exact fin False.elim (handleBind_full ha hxa _ _ _ _ _)
+    | unknown =>
+      dsimp only
+      split
+      · exact ⟨ha.sendError _ _, ox_sendError oxa _ _⟩
+      · exact ⟨ha.sendError _ _, ox_sendError oxa _ _⟩
+    | list =>
+      dsimp only
+      split
+      · exact ⟨ha.sendError _ _, ox_sendError oxa _ _⟩
+      · exact fin False.elim (handleList_full ha _)
+    | allocate pick draws fresh =>
+      dsimp only
+      split
+      · exact ⟨ha.sendError _ _, ox_sendError oxa _ _⟩
+      · rename_i app happ
+        exact fin (fun a => ⟨x, app, hfx, happ, a⟩)
+          (handleAllocate_full ha hxa _ _ _ _ (hu fresh (by simp [Cmd.mailboxIds])))
+    | claim n fresh =>
+      dsimp only
+      split
+      · exact ⟨ha.sendError _ _, ox_sendError oxa _ _⟩
+      · rename_i app happ
+        exact fin (fun a => ⟨x, app, hfx, happ, a⟩)
+          (handleClaim_full ha hxa _ _ _ (hu fresh (by simp [Cmd.mailboxIds])))
+    | release n =>
+      dsimp only
+      split
+      · exact ⟨ha.sendError _ _, ox_sendError oxa _ _⟩
+      · exact fin False.elim (handleRelease_full ha hxa _ _ _ _)
+    | open_ m =>
+      dsimp only
+      split
+      · exact ⟨ha.sendError _ _, ox_sendError oxa _ _⟩
+      · rename_i app happ
+        refine fin (fun a => ?_) (handleOpen_full ha hxa happ _ m (fun mb e => hu mb (by simp [Cmd.mailboxIds, e])))
+        obtain ⟨mb, e, hf⟩ := a
+        exact ⟨x, app, mb, hfx, happ, e, hf⟩
+    | add ph bd =>
+      dsimp only
+      split
+      · exact ⟨ha.sendError _ _, ox_sendError oxa _ _⟩
+      · rename_i app happ
+        exact fin False.elim (handleAdd_full ha hxa happ _ _ _ _)
+    | close m mood =>
+      dsimp only
+      split
+      · exact ⟨ha.sendError _ _, ox_sendError oxa _ _⟩
+      · rename_i app happ
+        refine fin (fun a => ?_) (handleClose_full ha hxa app _ m mood
+          (fun mb e => hu mb (by simp [Cmd.mailboxIds, e])))
+        obtain ⟨mb, e, hf⟩ := a
+        exact ⟨x, app, mb, hfx, happ, e, hf⟩
+
+theorem connect_full (h : s.Full U t S) (c : Nat) (hfresh : ∀ x ∈ s.conns, x.id ≠ c) : (s.connect c).Full U t S := by
+  unfold Sys.connect
+  apply Full.send
+  refine ⟨⟨⟨h.good.db, h.good.d.of_eq rfl rfl, ?_⟩, h.good.sx⟩, ?_, ?_⟩
+  · intro y hy hl m hm
+    simp only [List.mem_append, List.mem_singleton] at hy
+    rcases hy with hy | rfl
+    · exact h.good.lh y hy hl m hm
+    · cases hl
+  · simp only [List.pairwise_append, List.pairwise_cons, List.mem_singleton]
+    refine ⟨h.ids, by simp, ?_⟩
+    intro a ha b hb; subst hb
+    exact hfresh a ha
+  · intro y hy
+    simp only [List.mem_append, List.mem_singleton] at hy
+    rcases hy with hy | rfl
+    · exact h.conn y hy
+    · exact ⟨⟨by simp, by simp, by simp⟩, fun m hm => by cases hm⟩
+
+theorem dropConn_full (h : s.Full U t S) (c : Nat) : (s.dropConn c).Full U t S := by
+  refine ⟨⟨⟨h.good.db, h.good.d.of_eq rfl rfl, ?_⟩, h.good.sx⟩, h.ids.filter _, ?_⟩
+  · intro y hy
+    simp only [Sys.dropConn, List.mem_filter] at hy
+    exact h.good.lh y hy.1
+  · intro y hy
+    simp only [Sys.dropConn, List.mem_filter] at hy
+    exact h.conn y hy.1
+
+theorem restart_full (h : s.Full U t S) (hsync : s.db = s.disk) (t' : Time) : (s.restart t').Full U t S := by
+  refine ⟨⟨⟨h.good.d.disk, h.good.d.of_eq rfl rfl, ?_⟩, ?_⟩, List.Pairwise.nil, ?_⟩
+  · intro y hy; simp [Sys.restart] at hy
+  · intro hS
+    show s.disk.SExtra
+    rw [← hsync]; exact h.good.sx hS
+  · intro y hy; simp [Sys.restart] at hy
+
+/-- the causes of an `internal` event in one (plain) operation -/
+def OpIntCause (s : Sys) : Op → Prop
+  | .recv c _ _ cmd => s.IntCause c cmd
+  | .sweep _ fault => fault = true
+  | _ => False
+
+/-- every plain operation, run at its own time `t`, keeps the invariant (in particular every
+    snapshot it commits satisfies `CInv`), and emits `internal` only for the stated causes -/
+theorem stepPlain_full (h : s.Full U t S) (hsync : s.db = s.disk) (op : Op)
+    (hconn : ∀ c, op = .connect c → ∀ x ∈ s.conns, x.id ≠ c)
+    (hu : ∀ m ∈ op.mailboxIds, U m) (ht : ∀ t', op.time? = some t' → t' = t) :
+    (s.stepPlain op).Full U t S ∧ OutExt (IntOnly (s.OpIntCause op)) s (s.stepPlain op) := by
+  cases op with
+  | connect c => exact ⟨connect_full h c (hconn c rfl), ox_send (OutExt.of_out_eq rfl) _ _⟩
+  | recv c t' id cmd =>
+    have := ht t' rfl
+    subst this
+    exact onMessage_full h c id cmd hu
+  | drop c => exact ⟨dropConn_full h c, OutExt.of_out_eq rfl⟩
+  | sweep now fault =>
+    have := ht now rfl
+    subst this
+    obtain ⟨k1, k2, _⟩ := expire_good h.good (Int.le_refl _) fault
+    refine ⟨h.of_core k1 k2, ?_⟩
+    unfold Sys.stepPlain Sys.expire
+    dsimp only
+    refine OutExt.trans ?_ (CExt.dumpStats OutExt.refl).intOnly
+    have h0 : OutExt (IntOnly (s.OpIntCause (.sweep now fault))) s
+        (s.emit (.fired now (now - Generated.expirationTicks))) :=
+      OutExt.refl.emit (fun _ _ he => by cases he)
+    split
+    · rename_i hf
+      exact h0.emit (intOnly_internal hf _ _)
+    · have h1 := (CExt.pruneApps (now := now) (old := now - Generated.expirationTicks)
+        ((s.emit (.fired now (now - Generated.expirationTicks))).allApps)
+        (OutExt.refl (s := s.emit (.fired now (now - Generated.expirationTicks))))).intOnly
+        (A := s.OpIntCause (.sweep now fault))
+      split
+      · rename_i s1 e
+        rw [e] at h1
+        exact h0.trans h1
+      · rename_i s1 e
+        have hold : now - Generated.expirationTicks < now := Int.sub_lt_self now expirationTicks_pos
+        have := (pruneApps_good (Int.le_refl _) hold _ (h.good.emit _) e).2.1
+        simp at this
+  | restart t' => exact ⟨restart_full h hsync t', OutExt.of_out_eq rfl⟩
+  | crashIn k op => exact ⟨h, OutExt.refl⟩
+
+end ops
 
 end Sys
 end Wormhole
